@@ -151,7 +151,12 @@ def work(item):
             else:
                 res['inconclusive'].append('density model does not reproduce in floats: %r' % rep)
         else:
-            res['inconclusive'].append('unknown density query %r' % (item[:4],))
+            prob = float_replay(m, ps, item, canary)        # no verdict (uninterpreted functions at different arguments): the float run may decide
+            if prob:
+                res['violations'].append(('density:%s' % mode, '%s (solver verdict unknown; witness from the float run)' % prob,
+                                          dict(kind='density', item=str(item[:4]), concrete=prob, canary=bool(canary))))
+            else:
+                res['inconclusive'].append('unknown density query %r' % (item[:4],))
     numenv.disable()
     if canary:
         undo_canary(None)
@@ -193,10 +198,15 @@ def float_replay(m, ps, item, canary):
             h4 = m['layout'].getLayoutHandler(comm, {'v_parallel': [0, 2, 1, 3]}, list(nprocs), eta)
             h3 = m['layout'].getLayoutHandler(comm, {'v_parallel_2d': [0, 2, 1]}, list(nprocs), eta[:3])
             g = m['grid'].Grid(eta, [None, None, None, vb], h4, 'v_parallel', comm=comm)
-            if cplx_storage:
+            if cplx_storage == 'complex':
                 # the solver's density grid: complex storage that still holds the modes of the previous step
                 rho = m['grid'].Grid(eta[:3], [None] * 3, h3, 'v_parallel_2d', comm=comm, dtype=np.complex128)
                 rho.getAllData()[...] = 3.0 + 4.0j
+            elif cplx_storage == 'nonfinite':
+                # np.empty storage may hold anything, infinities and NaNs included
+                rho = m['grid'].Grid(eta[:3], [None] * 3, h3, 'v_parallel_2d', comm=comm)
+                rho.getAllData()[...] = np.inf
+                rho.getAllData().flat[::2] = np.nan
             else:
                 rho = m['grid'].Grid(eta[:3], [None] * 3, h3, 'v_parallel_2d', comm=comm)
             dist.fill_grid(g, Fd)
@@ -212,14 +222,18 @@ def float_replay(m, ps, item, canary):
             return err
         cplx_storage = False
         errs = simmpi.World(nranks).run(rankfn)
-        cplx_storage = True
+        cplx_storage = 'complex'
         errs_c = simmpi.World(nranks).run(rankfn)
+        cplx_storage = 'nonfinite'
+        errs_n = [e if e == e else float('inf') for e in simmpi.World(nranks).run(rankfn)]
     except Exception as e:
         return 'exception %s: %s' % (type(e).__name__, e)
     finally:
         numenv.enable()
     if max(errs) > 1e-9:
         return 'density differs from the exact velocity integral by %.3g on rank %d (grid %s)' % (max(errs), int(np.argmax(errs)), list(nprocs))
+    if max(errs_n) > 1e-9:
+        return 'density written into storage that held inf / nan differs from the exact velocity integral (error %s on rank %d, grid %s)' % (max(errs_n), int(np.argmax(errs_n)), list(nprocs))
     if max(errs_c) > 1e-9:
         return 'density written into complex storage that held other data differs from the exact velocity integral by %.3g on rank %d (grid %s)' % (max(errs_c), int(np.argmax(errs_c)), list(nprocs))
     return None
@@ -254,6 +268,8 @@ def main():
     items.append(((8, 2, 3), (3, 2), (3, 3, 'cu'), 'perturbed', None))
     for vs in ([(3, 2, 'nu')] if quick else [(1, 3, 'nu'), (2, 3, 'nu'), (3, 2, 'nu'), (4, 2, 'nu'), (5, 1, 'nu'), (3, 5, 'cu')]):
         items.append(((3, 2, 3), (2, 2), vs, 'perturbed', None))
+    # local radial extent equal to the number of velocity points on a rank that is not the first along r
+    items.append(((10, 2, 2), (2, 1), (3, 2, 'nu'), 'perturbed', None))
     # history: a finder for another v domain (same sizes, same constants) exists already in the process
     items.append(((3, 2, 3), (1, 1), (3, 3, 'cu'), 'perturbed+hist', None))
     items.append(((3, 2, 3), (2, 1), (3, 2, 'nu'), 'perturbed+hist', None))
